@@ -15,6 +15,9 @@
 // symbolic primary) - DESIGN.md 1.4a.
 // BOUNDED: section names of 0, 3, 5, 6, 7, 9, 11, 12 bytes (one obligation per length).
 use super::*;
+// `memchr::memchr` named through an import: a bare crate path in kani::stub may resolve to another
+// build of the crate in the dependency graph (then the stub is reported but has no effect).
+use memchr::memchr as memchr_of_this_build;
 use crate::layout_rules::SectionKind;
 use crate::output_section_id::SectionName;
 use crate::output_section_id::SectionOutputInfo;
@@ -48,8 +51,9 @@ fn info(kind: SectionKind<'static>) -> SectionOutputInfo<'static, Elf> {
     }
 }
 
-// One obligation per CONCRETE name length (a symbolic length through the string table's NUL
-// search did not finish within 15 min under load - measured; concrete lengths take a minute).
+// One obligation per CONCRETE name length.  The string table's NUL search (memchr's SSE2 path:
+// raw-pointer loops CBMC cannot bound) is replaced by memchr's contract as a plain loop - with the
+// real path no length finished in 15 min, with the stub each takes under a minute (measured).
 fn harness(check_secondary: bool, name_len: usize) {
     // ---- string table: "\0" + name + "\0"
     let mut strtab = [0u8; NAMELEN + 2];
@@ -129,6 +133,7 @@ macro_rules! c30_reverse_harness {
         #[kani::proof]
         #[kani::unwind(70)]
         #[kani::stub(std::arch::x86_64::__cpuid_count, stubs::verif_cpuid_stub)]
+        #[kani::stub(memchr_of_this_build, stubs::verif_memchr_stub)]
         fn $name() {
             harness($secondary, $len);
         }
@@ -148,6 +153,7 @@ c30_reverse_harness!(c30_reverse_follows_the_primary_of_a_priority_secondary_nam
 #[kani::proof]
 #[kani::unwind(70)]
 #[kani::stub(std::arch::x86_64::__cpuid_count, stubs::verif_cpuid_stub)]
+#[kani::stub(memchr_of_this_build, stubs::verif_memchr_stub)]
 fn c30_canary_reverse_reachable() {
     // must fail: with a symbolic name both answers are reachable
     let mut strtab = [0u8; NAMELEN + 2];
